@@ -124,6 +124,9 @@ def unsupported_key(head, r=None):
         # a residual sum with the flattened network input: outside the model's `supported` (a flatten-derived operand),
         # but nothing of it can be pruned, so the real code must handle it: never one of the known unsupported classes
         return None
+    if not why and r is not None and head.get('sup') is None:
+        # no model answer for this net (a feature outside the model): the generator knows which family it drew
+        return {'add_cat': 'add-with-concat-operand', 'dw_cat': 'depthwise-fed-by-concat'}.get(r['spec']['opts'].get('unsupported'))
     if 'add' in why or 'tcat' in why:
         return 'add-with-concat-operand'
     if 'dw' in why:
